@@ -25,6 +25,7 @@ RULE = (
     "TimeManager under the driver protocol; outcomes are 'converged in k iterations' or the injected fault 'failed'. "
     "Non-trivial = at least 3 accepted steps or at least one injected failure; distinct = distinct sequence of "
     "(attempt outcome class, landed-on-schedule flag) over the walk."
+    ' Since the second session: schedules handed over as arrays the caller goes on using, a roll-back mode (time information exported after every accepted step, the same manager set back to an exported level), a second manager stepped in between, printing; workloads driver / driver_mp re-check the clauses inside the real time loop with six model families.'
 )
 STATE_ABSTRACTION = (
     "(scheduled_idx, recomp_num, is_about_to_hit_schedule, dt class in {=min,=max,inside,<min,>max}, "
